@@ -108,6 +108,9 @@ class AnyIOBackend(AsyncNetworkBackend):
         exc_map = {
             TimeoutError: ConnectTimeout,
             OSError: ConnectError,
+            # A host name that cannot be encoded for the resolver (for example a
+            # label of more than 63 characters) cannot be connected to.
+            UnicodeError: ConnectError,
             anyio.BrokenResourceError: ConnectError,
         }
         with map_exceptions(exc_map):
